@@ -601,7 +601,7 @@ func (ex *Exec) builtin(st *State, b *ssa.Builtin, args []Val, c *ssa.CallCommon
 	case "ssa:wrapnilchk":
 		return args[0]
 	case "ssa:deferstack":
-		return Val{K: KTerm, T: "0"}
+		return term("0", tInt)
 	case "print", "println":
 		return Val{K: KUnit}
 	case "min", "max":
